@@ -191,7 +191,7 @@ def step (s : St) (ts : List String) : St × Verdict × List String :=
   | "net" :: rest =>
     if rest.any (fun t => t.startsWith "START-FAILED" ∨ t.startsWith "TRACKER-EXITED") then
       (s, .specfail s!"tracker process: {rest}", ["net-problem"])
-    else (s, .skip, rest.filter (fun t => t.startsWith "socket_workers" ∨ t.startsWith "swarm_workers" ∨ t.startsWith "keep_alive" ∨ t = "boundary=true"))
+    else (s, .skip, rest.filter (fun t => t.startsWith "socket_workers" ∨ t.startsWith "swarm_workers" ∨ t.startsWith "keep_alive" ∨ t = "boundary=true" ∨ t = "proxy=true"))
   | "ann" :: fam :: rest =>
     if out.head? = some "NOREPLY" then
       -- no complete reply reached the client; the announce may or may not have been applied
